@@ -24,7 +24,7 @@ PROPS["C06"] = Prop(
 PARAMS["C06"] = {"rule": "exhaustive: for N in 0..=8, every reachable (front, back), directly and via a clone, every operation with every argument 0..=len+2, bracketed by the passive observers; plus seeded random operation sequences (length ≤ 64) over the length lattice. Distinct = distinct scenario lines; non-trivial = at least one operation returned Some(_)."}
 
 PROPS["C01"] = Prop(
-    "C01", ["GA.Props.C01", "GA.Props.C16", "GA.Props.BodyBoxed", "GA.Props.C19", "GA.Props.C10"],
+    "C01", ["GA.Props.C01", "GA.Props.C16", "GA.Props.BodyBoxed", "GA.Props.C19", "GA.Props.C10", "GA.Props.BodyViews"],
     [Engine("layout", scen.layout, sig=lambda l: l.split()[0]),
      Engine("layout", scen.layout_full, bin="layout_full", sig=lambda l: l.split()[0]),
      Engine("xmute", scen.xmute, sig=lambda l: "xmute"),
@@ -34,7 +34,7 @@ PROPS["C01"] = Prop(
      Engine("fill", scen.fill, sig=lambda l: "fill/" + l.split()[0]),
      # "viewing the array as a slice or native array never touches ... memory outside the array": the chunk views regroup
      # a slice into arrays on the strength of the layout identity; a sample runs here, under Miri when the tie is broken
-     Engine("chunks", lambda t, s, p: [x for k, x in enumerate(scen.chunks(t, s, p)) if k % 6 == 0], sig=lambda l: "chunks/" + l.split()[0], miri=60)],
+     Engine("chunks", lambda t, s, p: [x for k, x in enumerate(scen.chunks(t, s, p)) if k % 6 == 0], sig=lambda l: "chunks/" + l.split()[0], miri=60, body_view=True)],
     trusted=[KERNEL, TRANSLATOR, BODYTIE, HARNESS,
              "modelled, not verified: rustc's implementation of repr(C), repr(transparent), [T; 0] and PhantomData layout (the Rust Reference's algorithm is the model); validated against size_of/align_of on the grid"],
     assumptions=["every Rust type has 0 < align and align | size (language guarantee); element layouts are abstracted to (size, align)",
@@ -107,8 +107,8 @@ PARAMS["C09"] = {"rule": "append, prepend, pop_back, pop_front, split at every K
 MEM_TRUST = "modelled, not verified: slice::from_raw_parts(_mut), reference transmutes and pointer casts produce a view at the computed address with the computed length; layouts from C01"
 
 PROPS["C02"] = Prop(
-    "C02", ["GA.Props.C02"],
-    [Engine("views", scen.views, sig=lambda l: l.split()[0], miri=80), Engine("xmute", scen.xmute, sig=lambda l: "xmute")],
+    "C02", ["GA.Props.C02", "GA.Props.BodyViews"],
+    [Engine("views", scen.views, sig=lambda l: l.split()[0], miri=80, body_view=True), Engine("xmute", scen.xmute, sig=lambda l: "xmute")],
     trusted=[KERNEL, TRANSLATOR, HARNESS, MEM_TRUST],
     assumptions=["a view is described by (address offset, element count); aliasing rules beyond address equality (Stacked/Tree Borrows) are not modelled",
                  "correspondence covers the length lattice incl. every tuple length 1..=12; theorems cover every N and every source length L"],
@@ -117,8 +117,8 @@ PROPS["C02"] = Prop(
 PARAMS["C02"] = {"rule": "ten borrowed views x length lattice x 5 element kinds (address offset and length vs the array); six checked reinterpretations x source lengths {0, N-1, N, N+1, 2N+1}; AsRef/AsMut<[T;N]>, From<&[T;N]>, array and tuple round trips for every const length; write through each mutable view, read through each view (all ordered pairs)."}
 
 PROPS["C10"] = Prop(
-    "C10", ["GA.Props.C10"],
-    [Engine("chunks", scen.chunks, sig=lambda l: l.split()[0], miri=80)],
+    "C10", ["GA.Props.C10", "GA.Props.BodyViews"],
+    [Engine("chunks", scen.chunks, sig=lambda l: l.split()[0], miri=80, body_view=True)],
     trusted=[KERNEL, TRANSLATOR, HARNESS, MEM_TRUST],
     assumptions=["slice_from_chunks on zero-sized elements with k*N >= 2^64 (the multiplication can wrap; no memory is involved) is outside the theorem's hypothesis",
                  "const-evaluator agreement is covered by C18"],
@@ -200,7 +200,7 @@ PROPS["C20"] = Prop(
 PARAMS["C20"] = {"rule": "list form: every element count 0..=64, 100, 128, 255, 256 x {arr!, box_arr!} x {Copy, non-Copy elements} with index-logging element expressions, trailing commas 0/1/2 at small and boundary counts; both repeat forms x N in {0..8,16,17,31,32,33,64,97,255,256,1000,1023,1024} x {arr!, box_arr! (Copy and Clone-only elements)}: type-level length, values, evaluation log. Const positions: each list count and each repeat length as a const item (plus static and const fn bodies), compiled against the crate and compared with the literal at run time."}
 
 PROPS["C18"] = Prop(
-    "C18", ["GA.Props.C18", "GA.Props.C20", "GA.Props.C19"],
+    "C18", ["GA.Props.C18", "GA.Props.C20", "GA.Props.C19", "GA.Props.BodyViews"],
     [Engine("constapi", scen.constapi, runner=corpora.constapi_runner, sig=lambda l: " ".join(t for t in l.split() if t.split("=")[0] in ("fn", "ty"))),
      Engine("arrconst", scen.arrconst_c18, runner=corpora.arrconst_runner, sig=lambda l: " ".join(t for t in l.split() if t.split("=")[0] in ("form", "pos"))),
      Engine("filldefault", scen.filldefault_c18, runner=corpora.filldefault_runner, sig=lambda l: " ".join(l.split()[:2]))],
